@@ -113,5 +113,87 @@ func TestVerifC20(t *testing.T) {
 			}
 		}
 	}
+	// certificates padded with repeated entries: k distinct genuine signers plus repeats of signer 1
+	// up to q (and q+1) entries, the repeat adjacent to its original or after all others, must count as k
+	pad := v.Stream("padded", "thr_mismatches", 2000)
+	for n := 2; n <= 13; n++ {
+		keys := make([]hotstuff.PrivateKey, n+1)
+		for i := 1; i <= n; i++ {
+			k, err := keygen.GenerateECDSAPrivateKey()
+			if err != nil {
+				t.Fatal(err)
+			}
+			keys[i] = k
+		}
+		block := hotstuff.NewBlock(hotstuff.GetGenesis().Hash(), hotstuff.NewQuorumCert(nil, 0, hotstuff.GetGenesis().Hash()), &clientpb.Batch{}, 1, 1)
+		auths := make([]*Authority, n+1)
+		for i := 1; i <= n; i++ {
+			cfg := core.NewRuntimeConfig(hotstuff.ID(i), keys[i])
+			for j := 1; j <= n; j++ {
+				cfg.AddReplica(&hotstuff.ReplicaInfo{ID: hotstuff.ID(j), PubKey: keys[j].Public()})
+			}
+			logger := logging.NewWithDest(io.Discard, "c20")
+			el := eventloop.New(logger, 10)
+			bc := blockchain.New(el, logger, c20NullSender{})
+			bc.Store(block)
+			base, err := crypto.New(cfg, crypto.NameECDSA)
+			if err != nil {
+				t.Fatal(err)
+			}
+			auths[i] = NewAuthority(cfg, bc, base)
+		}
+		q := hotstuff.QuorumSize(n)
+		single := func(i int, msg []byte) *crypto.ECDSASignature {
+			sg, err := auths[i].Sign(msg)
+			if err != nil {
+				t.Fatal(err)
+			}
+			m, ok := sg.(crypto.Multi[*crypto.ECDSASignature])
+			if !ok || len(m) != 1 {
+				t.Fatalf("unexpected signature type %T", sg)
+			}
+			return m[0]
+		}
+		for k := 1; k < q; k++ {
+			for _, shape := range []string{"repeat-last", "repeat-adjacent", "repeat-last-plus-one"} {
+				entries := q
+				if shape == "repeat-last-plus-one" {
+					entries = q + 1
+				}
+				mk := func(msg []byte) hotstuff.QuorumSignature {
+					var m crypto.Multi[*crypto.ECDSASignature]
+					first := single(1, msg)
+					if shape == "repeat-adjacent" {
+						for r := 0; r < entries-k+1; r++ {
+							m = append(m, first)
+						}
+						for i := 2; i <= k; i++ {
+							m = append(m, single(i, msg))
+						}
+					} else {
+						for i := 1; i <= k; i++ {
+							m = append(m, single(i, msg))
+						}
+						for len(m) < entries {
+							m = append(m, first)
+						}
+					}
+					return m
+				}
+				verifier := auths[n]
+				okQC := verifier.VerifyQuorumCert(hotstuff.NewQuorumCert(mk(block.ToBytes()), block.View(), block.Hash())) == nil
+				okTC := verifier.VerifyTimeoutCert(hotstuff.NewTimeoutCert(mk(hotstuff.View(7).ToBytes()), 7)) == nil
+				for _, c := range []struct {
+					kind string
+					ok   bool
+				}{{"qc", okQC}, {"tc", okTC}} {
+					meta := map[string]any{"n": n, "distinct_signers": k, "entries": entries, "shape": shape, "quorum": q, "certificate": c.kind, "accepted": c.ok}
+					v.Seen(fmt.Sprintf("pad/%d/%d/%s/%s", n, k, shape, c.kind), k == q-1, meta)
+					v.Oracle(!c.ok, "threshold:"+c.kind+":repeated-entries-counted", fmt.Sprintf("n=%d: a %s with %d entries of only %d distinct signers (%s) was accepted, quorum is %d", n, c.kind, entries, k, shape, q), meta)
+					v.Case(pad, fmt.Sprintf("(%s,%s,%s)", gZ(int64(n)), gZ(int64(k)), gBool(c.ok)), meta)
+				}
+			}
+		}
+	}
 	v.Close("QC and TC signed by exactly k distinct members verified by a real Authority, n = 1..13, k = 1..n; non-trivial = k at or just below the quorum")
 }
